@@ -133,6 +133,11 @@ void *suser_malloc(int_t bytes, int_t which_end)
 	    buf = (char*) stack.array + stack.top2;
         }
         stack.used += bytes;
+#ifdef SLU_MT_VERIF
+	{   long vq[4]; vq[0] = stack.size; vq[1] = stack.used; vq[2] = stack.top1; vq[3] = stack.top2;
+	    SLU_VERIF_EV(SLU_VEV_USTACK, -1, bytes, which_end, 0, vq);
+	}
+#endif
         
      end: ;
     } /* ---- end critical section ---- */
